@@ -7,6 +7,7 @@ use syn::spanned::Spanned;
 
 pub struct SignatureConverter<'a> {
     pub crate_idents: &'a CrateIdents,
+    #[expect(unused)]
     pub trait_span: Span,
     #[expect(unused)]
     pub opts: &'a Opts,
@@ -39,6 +40,30 @@ impl SignatureConverter<'_> {
         tidy_generics(&mut entrait_sig.sig.generics);
 
         fn_params::fix_fn_param_idents(&mut entrait_sig.sig);
+
+        // Attribute macros applied to the generated trait (the mock derivations) span what they generate, `self`
+        // included, after the first tokens of the method: give those the hygiene of the receiver
+        // (see `gen_self_receiver`). None of them is subject to hygiene itself.
+        fn at_call_site(span: &mut Span) {
+            *span = Span::call_site().located_at(*span);
+        }
+        let sig = &mut entrait_sig.sig;
+        if let Some(token) = &mut sig.constness {
+            at_call_site(&mut token.span);
+        }
+        if let Some(token) = &mut sig.asyncness {
+            at_call_site(&mut token.span);
+        }
+        if let Some(token) = &mut sig.unsafety {
+            at_call_site(&mut token.span);
+        }
+        if let Some(abi) = &mut sig.abi {
+            at_call_site(&mut abi.extern_token.span);
+        }
+        at_call_site(&mut sig.fn_token.span);
+        let mut ident_span = sig.ident.span();
+        at_call_site(&mut ident_span);
+        sig.ident.set_span(ident_span);
 
         entrait_sig
     }
@@ -136,16 +161,17 @@ impl SignatureConverter<'_> {
             None => syn::parse_quote!(Self),
         };
 
-        // The delegating body refers to `self` with the span of the trait identifier. `self` is hygienic,
-        // so the receiver has to be declared in that same context (it matters when the invocation is
-        // stamped out by `macro_rules!` and the trait name is a macro argument).
-        let _ = span;
+        // `self` is hygienic. The receiver and every use of it in the generated bodies (ours, and those of
+        // mock derivations applied to the generated trait) resolve at the macro call site, whatever
+        // contexts the dependency parameter or the trait name come from when the invocation is stamped out
+        // by `macro_rules!`. The location of the dependency parameter is kept for diagnostics.
+        let span = Span::call_site().located_at(span);
 
         syn::FnArg::Receiver(syn::Receiver {
             attrs: vec![],
             reference,
             mutability: None,
-            self_token: syn::token::SelfValue(self.trait_span),
+            self_token: syn::token::SelfValue(span),
             colon_token: None,
             ty,
         })
@@ -153,8 +179,8 @@ impl SignatureConverter<'_> {
 
     fn gen_impl_receiver(&self, _: Span, lifetime: Option<&syn::Lifetime>) -> syn::FnArg {
         let entrait = &self.crate_idents.entrait;
-        // (same span as the `__impl` in the delegating body, see `gen_self_receiver`)
-        let impl_ident = syn::Ident::new("__impl", self.trait_span);
+        // (resolved at the call site like the `__impl` in the delegating body, see `gen_self_receiver`)
+        let impl_ident = syn::Ident::new("__impl", Span::call_site());
         syn::parse_quote! {
             #impl_ident: & #lifetime ::#entrait::Impl<EntraitT>
         }
